@@ -49,6 +49,8 @@ def gen_instance(rng: random.Random, cls=None, max_jobs=4, max_machines=4, max_o
         huge = True
         base = rng.choice(["classic", "irregular", "recirc"]
                           + ([] if cls == "huge_nf" else ["flexible", "flexible"]))
+    if cls == "fractional":
+        base = rng.choice(["classic", "irregular", "recirc", "flexible"])
     if cls in ("zero", "zero_nf"):
         zero = True
         base = rng.choice(
@@ -117,6 +119,10 @@ def gen_instance(rng: random.Random, cls=None, max_jobs=4, max_machines=4, max_o
                     job[p] = 0
                 elif rng.random() < 0.4:
                     job[p] = 0
+    if cls == "fractional":
+        for job in inst["durations"]:
+            for p in range(len(job)):
+                job[p] = rng.choice([0.25, 0.5, 0.75, 1.5, 2.5, 3.25, 1.0, 2.0])
     if huge:
         big = 2 ** rng.choice([24, 24, 25, 26])
         for job in inst["durations"]:
